@@ -16,7 +16,7 @@ ExtStep ==
           Enqueue(ds, lim, at) /\ ev' = Append(ev, [e |-> "Enqueue", deps |-> ds, limit |-> lim, attrs |-> at, t |-> n])
      \/ \E t \in Ids : \/ /\ st[t] \in {"SUBMITTED", "RUNNING"} \/ Len(ev) % 7 = 0   \* few no-op cancels
                           /\ Cancel(t) /\ ev' = Append(ev, [e |-> "Cancel", t |-> t])
-                       \/ \E c \in {0, 0, 1} : ProcExit(t, c) /\ ev' = Append(ev, [e |-> "Exit", t |-> t, rc |-> c])
+                       \/ \E c \in {0, 0, 1, -15} : ProcExit(t, c) /\ ev' = Append(ev, [e |-> "Exit", t |-> t, rc |-> c])
      \/ Tick /\ ev' = Append(ev, [e |-> "Tick"])
      (* client-side steps that must not affect the pool (C14) *)
      \/ \E k \in BadKinds : UNCHANGED vars /\ ev' = Append(ev, [e |-> "Bad", kind |-> k])
